@@ -93,6 +93,13 @@ def check(ctx):
         v = env.get("data")
         if branch and v is not None and v.kind == "I":
             got.setdefault(branch, set()).update(v.types - {"disc"})
+    # numbers: int() / float() of strings and numbers; which other classes they refuse is left to the constructors
+    # (TypeError -> bad_type), but a boolean must never get there: float(True) == 1.0 (bool is not a number for JSON)
+    gnum = got.get("cls in (int, float)", set())
+    nnode = [t for t, _ in chain if norm(t) == "cls in (int, float)"]
+    ctx.check({"str", "int", "float"} <= gnum and "bool" not in gnum, "C14.R2", f"{co.qualname}:accepts[cls in (int, float)]", None,
+              f"under `cls in (int, float)` data of classes {sorted(gnum)} reach `cls(data)`: " + ("a boolean is converted to a number (deserialize(float, True, coerce=True) == 1.0, while strict mode and the str / int targets refuse booleans)" if "bool" in gnum else "strings or numbers no longer convert"),
+              co, nnode[0] if nnode else co.node, detail="str / int / float reach cls(data); bool does not")
     for branch, tags in want.items():
         g = got.get(branch, set())
         node = [t for t, _ in chain if norm(t) == branch]
@@ -243,6 +250,7 @@ def check(ctx):
 
 
 def mutants(mb):
+    mb.add_text("bool-to-float", "apischema/deserialization/coercion.py", "        if isinstance(data, bool):  # a boolean is not a number (True would give 1.0)\n            raise bad_type(data, cls)\n", "", "C14.R2", "accepts[cls in (int, float)]")
     mb.add_text("literal-coerced-kind-from-request", "apischema/deserialization/methods.py", "                        coerced = self.coercer(cls, data)\n                        return self.value_map[isinstance(coerced, bool), coerced]\n", "                        return self.value_map[cls is bool, self.coercer(cls, data)]\n", "C14.R4", "coerced-key")
     mb.add_text("literal-retry-aborts-on-coercer-error", "apischema/deserialization/methods.py", "                    except (KeyError, TypeError, ValidationError):\n", "                    except (KeyError, TypeError):\n", "C14.R6", "retry-handler")
     mb.add_text("literal-coercer-guard-flipped", "apischema/deserialization/methods.py", "        except KeyError:\n            if self.coercer is not None:\n", "        except KeyError:\n            if self.coercer is None:\n", "C14.R6", "LiteralMethod")
